@@ -7,4 +7,8 @@ if ! PYTHONPATH=.deps /venv/bin/python -c "import icontract" 2>/dev/null; then
   PIP_NO_INDEX=1 /venv/bin/pip install -q --no-index --find-links /opt/veriftools/wheels \
      --target .deps icontract asttokens typing_extensions >/dev/null 2>&1 || echo "setup: icontract not installed (checks fall back to plain wrappers)"
 fi
+if ! PYTHONPATH=.deps /venv/bin/python -c "import atheris" 2>/dev/null; then
+  PIP_NO_INDEX=1 /venv/bin/pip install -q --no-index --find-links /opt/veriftools/wheels \
+     --target .deps atheris >/dev/null 2>&1 || echo "setup: atheris not installed (fuzz classes fall back to unguided mutation)"
+fi
 PYTHONPATH=/repo:. /venv/bin/python -c "import kmip, kv.rig; print('setup ok: kmip from', kmip.__file__)"
